@@ -110,6 +110,23 @@ pub fn drive(ctx: &mut Ctx, h: Hostile) {
     match rb.send() {
         Err(e) => {
             outcome = format!("send-err:{}", kind_of(&format!("{e:?}")));
+            // what a caller does with an error is part of "every API call returns": it is
+            // displayed, debug-printed and its source chain is walked (all under the panic monitor)
+            {
+                use std::error::Error as _;
+                let shown = e.to_string();
+                ctx.max("max_error_display_len", shown.len() as u64);
+                let mut src = e.source();
+                let mut depth = 0;
+                while let Some(s) = src {
+                    let _ = s.to_string();
+                    src = s.source();
+                    depth += 1;
+                    if depth > 16 {
+                        break;
+                    }
+                }
+            }
             if let attohttpc::ErrorKind::ConnectError { body, .. } = e.kind() {
                 delivered += body.len();
                 ctx.max("max_connect_error_body", body.len() as u64);
